@@ -79,6 +79,32 @@ def c13_a(ctx):
         ctx.check(ok, f, 'weights normalised by their sum', 'w / sum(w)',
                   'weights are {} - not divided by their sum'.format(show(wn)[:80]), fn=f,
                   node=rr[0])
+    # equal weights only when none were given
+    dflt = [n for n in own_nodes(f.node) if isinstance(n, ast.Assign) and
+            isinstance(n.targets[0], ast.Name) and n.targets[0].id == 'weights' and
+            match_any(ex.raw(n.value), ('np.ones(_)', 'np.ones_like(_)', 'np.full(_, _)'))
+            is not None]
+    ok = len(dflt) == 1 and any(pol and match(t_, pattern('weights is None')) is not None
+                                for (t_, pol, _) in ctx.guards(f, dflt[0]))
+    ctx.check(ok, f, 'equal weights exactly when none are given',
+              'if weights is None: weights = np.ones(n)',
+              'the given weights are replaced by equal weights (or None is used as weights)',
+              fn=f, node=dflt[0] if dflt else rr[0])
+    # the last cumulative weight is pinned to 1: rounding in the cumulative sum must not leave
+    # alpha = 1 (or an alpha within rounding of 1) without a cell
+    pin = [n for n in own_nodes(f.node) if isinstance(n, ast.Assign) and
+           isinstance(n.targets[0], ast.Subscript) and
+           ex.raw(n.targets[0].slice) in (('const', -1), ('unary', '-', ('const', 1))) and
+           ex.raw(n.value) in (('const', 1.0), ('const', 1))]
+    wh = [n for n in own_nodes(f.node) if isinstance(n, ast.Call) and callee_name(n) == 'where']
+    ok = len(pin) == 1 and bool(wh) and ctx.must_precede(f, pin, wh[0]) and \
+        isinstance(pin[0].targets[0].value, ast.Name) and \
+        any(isinstance(x, ast.Name) and x.id == pin[0].targets[0].value.id
+            for x in ast.walk(wh[0]))
+    ctx.check(ok, f, 'last cumulative weight pinned to 1', 'cum_weights[-1] = 1.0',
+              'the last cumulative weight is not set to 1 before the cell is searched: with '
+              'rounding in the cumulative sum a level near 1 finds no cell', fn=f,
+              node=pin[0] if pin else rr[0])
     # alpha == 0 -> smallest element
     ok = len(zero) == 1 and match(zero[0], pattern('x[np.argsort(x)[0]]')) is not None
     sel = [n for n in own_nodes(f.node) if isinstance(n, ast.If) and
